@@ -100,6 +100,10 @@ func loadRepo(repo string, stdlibContracts string) (*Loaded, error) {
 func (x *Exec) allFns() map[string][]*ssa.Function { return x.ld.fnByKey }
 
 func (ld *Loaded) newExec() *Exec {
+	inlinedFn = func(fn *ssa.Function) bool {
+		c := ld.cs.Funcs[fnKey(fn)]
+		return c != nil && c.Inline
+	}
 	return &Exec{ld: ld, prog: ld.prog, cs: ld.cs, typeIDs: map[string]int{}, typeByID: map[int]types.Type{}, ifaceSet: map[string]*types.Interface{},
 		ufDecls: map[string]string{}, obls: map[string]*Obligation{}, maxPaths: 4000, used: map[string]bool{}, sentinel: map[string]bool{},
 		forallVs: map[string]*Val{}}
